@@ -4,7 +4,19 @@ from common import Case, lean_stage, run_cases, load_corpus
 from vlib import Check, Rng
 
 PID = 'C04'
-THEOREMS = ['Lcdb.ConstsOk.batch_ok']
+THEOREMS = [
+    'Lcdb.ConstsOk.batch_ok',
+    'Lcdb.C04.iterate_encode',
+    'Lcdb.C04.seq_encode',
+    'Lcdb.C04.count_encode',
+    'Lcdb.C04.append_ops',
+    'Lcdb.C04.iterate_append',
+    'Lcdb.C04.prefix_rejected',
+    'Lcdb.C04.prefix_applies_prefix',
+    'Lcdb.C04.short_rejected',
+    'Lcdb.C04.iterate_count',
+    'Lcdb.C04.iterate_sound_false',
+]
 IMPORTS = ['LcdbModel.Props.C04']
 TARGETS = ['LcdbModel.Props.C04']
 
